@@ -212,10 +212,54 @@ class LinalgShim:
         return out.view(SA)
 
 
+class _ScalarType:
+    """np.float64 / np.complex128 ... stand-in: usable as a dtype (np.dtype() reads .dtype) and as a
+    constructor (lifts to an exact proxy)."""
+
+    def __init__(self, real_type):
+        self.real_type = real_type
+        self.dtype = _real_np.dtype(real_type)
+        self.__name__ = real_type.__name__
+
+    def __call__(self, x=0):
+        k = self.dtype.kind
+        if isinstance(x, np.ndarray):
+            return SHIM.asarray(x, dtype=self.dtype)
+        if k == "c":
+            if isinstance(x, (SR, SC)):
+                return SC.lift(x)
+            return SC.lift(complex(x))
+        if isinstance(x, SC):
+            return x.re
+        if isinstance(x, (SR, SI)):
+            return SR.lift(x)
+        return SR(c=to_fraction(x))
+
+    def __eq__(self, o):
+        if o is self or o is self.real_type:
+            return True
+        try:
+            return _real_np.dtype(o) == self.dtype
+        except TypeError:
+            return False
+
+    def __ne__(self, o):
+        return not self.__eq__(o)
+
+    def __hash__(self):
+        return hash(self.real_type)
+
+    def __repr__(self):
+        return "shim." + self.__name__
+
+
 class NPShim(types.ModuleType):
     def __init__(self):
         super().__init__("vf_npshim")
         self.linalg = LinalgShim()
+        for t in ("float64", "float32", "complex128", "complex64"):
+            setattr(self, t, _ScalarType(getattr(_real_np, t)))
+        self.float_ = self.float64
         for nm in ("sqrt", "exp", "cos", "sin"):
             setattr(self, nm, _elementwise(nm))
 
@@ -346,30 +390,6 @@ class NPShim(types.ModuleType):
         if isinstance(a, SA):
             return a.copy()
         return self._wrap(_real_np.copy(a))
-
-    def float64(self, x=0.0):
-        if isinstance(x, (SR,)):
-            return x
-        if isinstance(x, (int, float, np.number, Fraction)) and not isinstance(x, (complex, np.complexfloating)):
-            return SR(c=to_fraction(x))
-        if isinstance(x, np.ndarray):
-            return self.asarray(x, dtype="float64")
-        return _real_np.float64(x)
-
-    float_ = float64
-
-    def float32(self, x=0.0):
-        return self.float64(x)
-
-    def complex128(self, x=0.0):
-        if isinstance(x, (SR, SC)):
-            return SC.lift(x)
-        if isinstance(x, (int, float, complex, np.number)):
-            return SC.lift(complex(x))
-        return _real_np.complex128(x)
-
-    def complex64(self, x=0.0):
-        return self.complex128(x)
 
     def linspace(self, *a, **k):
         return self._wrap(_real_np.linspace(*a, **k))
@@ -604,11 +624,11 @@ class NPShim(types.ModuleType):
         return r.view(SA) if r.dtype == object else r
 
     def ravel(self, a, **k):
-        r = _real_np.ravel(a)
+        r = _real_np.ravel(a, **k)
         return r.view(SA) if r.dtype == object else r
 
     def reshape(self, a, shape, **k):
-        r = _real_np.reshape(a, shape)
+        r = _real_np.reshape(a, shape, **k)
         return r.view(SA) if r.dtype == object else r
 
     def flatnonzero(self, a):
